@@ -48,6 +48,11 @@ CLAIMED = {
    technique="three exhaustive explorations of the implementation: bounded-exhaustive transaction bodies against a map model, crash-point/torn-write enumeration inside commit, and stateless interleaving exploration (controlled scheduler, deviation bound, happens-before caching) of a committer against readers",
    text="(1) every transaction body of <=3 (4) buffer operations over 2 keys x {commit, rollback, abandon} x pre-states x {now, after reopen}, with caller buffers overwritten after each call, plus batch shapes (1, 3, beyond the 64 KiB log buffer, an entry larger than a record, empty value, commit on a closed engine); (2) every crash state inside a commit of 1/2/3/3x30KiB entries and inside the following write: recovered state holds all or none; (3) every interleaving (deviation bound 2 quick / 3 thorough) of a 2-key commit with Get(a);Get(b), Get(b);Get(a), a read-only transaction and a scan: nobody observes a strict subset.",
    note="Process-death crash model; one open known finding (torn write between the records of a batch)."),
+ "C12": dict(
+   level="model_checking", design="§3 C12",
+   technique="exhaustive enumeration of table-file arrangements run through the real compaction coordinator, explicit-state search over flush/compact/restart programs on the real engine, and crash-point enumeration inside compaction",
+   text="File level: every {absent,value,tombstone} assignment of 3 keys x files for 6 file-set shapes (2 keys for the 4-file shapes in the quick tier) is written with the real SSTable writer; TriggerCompaction (until nothing is selected, checked after every cycle) and CompactRange over 5 ranges run with tracked / unknown / expired tombstones; the newest-wins merged view of all files must not change, outputs must be sorted and files of a level >=1 must not share keys. Engine level: all programs up to depth 4 (6 thorough) over {flushed put/delete of 2 keys, compact, compact-range, reopen, clock +25 h}: reads = model live, after reopen, after reopen with the flushed log files retired, and after one more compaction. Crash points: every call-log prefix and torn write inside a compaction following 3 flushed writes.",
+   note="Recency rule (lower level newer; within level 0 higher file number newer) is the specification's. Log retirement is simulated by deleting flushed log files."),
 }
 
 ALL = ["C%02d" % i for i in range(1, 21)]
